@@ -142,7 +142,7 @@ class FakeSocket(object):
         w.op('sendall', st.index, k, len(data))
         if st.closed:
             raise OSError(errno.EBADF, 'Bad file descriptor')
-        fault = w.fault_for('sendall', st, k)
+        fault = w.fault_for('sendall', st, k, data)
         if fault is None and st.dead:
             raise OSError(errno.EPIPE, 'Broken pipe')
         if fault is not None:
@@ -753,13 +753,19 @@ class World(object):
         return v
 
     # -- faults
-    def fault_for(self, op, st, k):
+    def fault_for(self, op, st, k, data=None):
         conn = st.conn if st is not None else self.cur_conn
         if conn is None:
             return None
         for f in conn.faults:
             if f['op'] != op:
                 continue
+            if f.get('first_byte') is not None:
+                if data is None or not data or data[0] != f['first_byte'] \
+                        or f.get('_used'):
+                    continue
+                f['_used'] = True
+                return f
             if f.get('k') is not None and f['k'] != k:
                 continue
             if f.get('role') and st is not None and f['role'] != st.role:
